@@ -74,6 +74,20 @@ Example rename_escape_refused :
          [[Name 2%positive]; [DotDot; DotDot; Name 3%positive]] = None.
 Proof. reflexivity. Qed.
 
+(* ---- histories on one instance ---- *)
+(* obligation against the source: the wrapper has no field besides fs/root, chroot_fs.go declares / uses no package-level
+   variable, no method writes to the receiver. Then one instance serves a history step by step like fresh instances. *)
+Lemma wrapper_stateless : chroot_state = [].
+Proof. reflexivity. Qed.
+
+Theorem history_confined root h :
+  Forall (fun oa => In (fst oa) ops) h ->
+  Forall (fun r => forall ps, r = Some ps -> Forall (fun p => exists s, p = clean_abs root ++ s) ps) (run_history root h).
+Proof.
+  intros Hh. unfold run_history. apply Forall_map. eapply Forall_impl; [|exact Hh].
+  intros [o args] Hin ps Hr. exact (all_ops_confined o root args ps Hin Hr).
+Qed.
+
 (* ---- import statements and the module argument (Chroot/Import.v) ---- *)
 Require Import Verif.Chroot.Import.
 
